@@ -144,7 +144,7 @@ def c01(tier, rep):
     judge_family(rep, fr)
     from . import fam_operands as fo
 
-    op = fo.operand_programs(tier) + fo.initial_programs()
+    op = fo.operand_programs(tier) + fo.initial_programs() + fo.twin_programs()
     fro = e2.run_family("c01operands", op, extra_header=fo.PRE)
     judge_family(rep, fro)
     rep.set("operand_corpus_programs", len(op))
